@@ -61,13 +61,18 @@ def verify_target(job):
                 rec["smt2"] = smt2_of(o)
                 out["failed"].append(rec)
             out["obligations"].append({k: rec[k] for k in rec if k != "smt2"})
-        # vacuity canary: `false` must not be provable at any exit
-        for cny in getattr(ex, "canaries", [])[:6]:
+        # vacuity canaries: `false` must not follow from the preconditions, nor at every exit
+        def contradictory(cny):
             s = z3.Solver()
             s.set("timeout", 3000)
             s.add(*cny.hyps)
-            if s.check() == z3.unsat:
-                out["canary"] = "vacuous: assumptions of %s are contradictory" % cny.name
+            return s.check() == z3.unsat
+        cans = getattr(ex, "canaries", [])
+        if cans:
+            if contradictory(cans[0]):
+                out["canary"] = "vacuous: the preconditions of %s are contradictory" % target
+            elif len(cans) > 1 and all(contradictory(c) for c in cans[1:12]):
+                out["canary"] = "vacuous: every explored exit of %s has contradictory assumptions" % target
         out["trusted"] = sorted(libspec.TRUSTED)
     except Exception:
         out["engine_error"] = "CRASH " + traceback.format_exc()[-1500:]
